@@ -229,5 +229,12 @@ def check(repo, tier):
         if f.where.startswith(MOD + '::'):
             f.rule = 'D1'
             run.add(f)
+    # (results of one call are not carried into the next: no module-level state, no mutable default that is filled or handed out)
+    ff, _nf = p_c06.rule_f(repo, prop='C18')
+    ff = [f for f in ff if f.where.split('::')[0] == MOD]
+    run.oblige('D1', ('R-f', MOD), not ff)
+    for f in ff:
+        f.rule = 'D1'
+        run.add(f)
     run.floor('obligations decided', run.obligations, 25)
     return run
